@@ -18,7 +18,6 @@ package util
 
 import (
 	"encoding/json"
-	"fmt"
 
 	"github.com/tidwall/gjson"
 	"k8s.io/apimachinery/pkg/apis/meta/v1/unstructured"
@@ -76,11 +75,9 @@ func GetDeployedJobStatus(trial *trialsv1beta1.Trial, deployedJob *unstructured.
 			strCondition = failureJobCondition.Array()[0].String()
 		}
 
-		// Unmarshal condition to Trial Job representation to get message and reason if it exists
-		err := json.Unmarshal([]byte(strCondition), &trialJobStatus)
-		if err != nil {
-			return nil, fmt.Errorf("unmarshal failure condition to Trial Job status failed %v", err)
-		}
+		// Unmarshal condition to Trial Job representation to get message and reason if it exists.
+		// Reason and message are informational: members of other types must not keep the Trial from its verdict.
+		_ = json.Unmarshal([]byte(strCondition), &trialJobStatus)
 
 		// Job condition is failed
 		trialJobStatus.Condition = JobFailed
@@ -98,10 +95,7 @@ func GetDeployedJobStatus(trial *trialsv1beta1.Trial, deployedJob *unstructured.
 			strCondition = successJobCondition.Array()[0].String()
 		}
 
-		err := json.Unmarshal([]byte(strCondition), &trialJobStatus)
-		if err != nil {
-			return nil, fmt.Errorf("unmarshal success condition to Trial Job status failed %v", err)
-		}
+		_ = json.Unmarshal([]byte(strCondition), &trialJobStatus)
 
 		// Job condition is succeeded
 		trialJobStatus.Condition = JobSucceeded
